@@ -148,6 +148,16 @@ def run_dm(ctx, case):
         r = ref.rng(case['prng'] * 17 + rep)
         op = _op(r, len(targets), (case['prng'] + rep) % 4)
         rho = ref.rand_dm(r, 2 ** n, int(r.integers(1, 2 ** n + 1))) if rep != 1 else ref.rand_hermitian(r, 2 ** n)
+        dk = (case['prng'] // 5 + rep) % 5  # 0,1: complex128 as drawn; 2: real symmetric float64; 3: real diagonal float64; 4: integer basis projector
+        if dk == 2:
+            rho = np.ascontiguousarray(rho.real)
+        elif dk == 3:
+            rho = np.diag(r.dirichlet(np.ones(2 ** n)))
+        elif dk == 4:
+            rho = np.zeros((2 ** n, 2 ** n), dtype=np.int64)
+            j = int(r.integers(0, 2 ** n))
+            rho[j, j] = 1
+        ctx.label('dm dtype=' + ['complex', 'complex', 'float', 'float diag', 'int'][dk])
         M = ref.embed(op, n, targets)
         scale = max(1.0, np.abs(op).max() * 2 ** len(targets)) ** 2
         form = (case['prng'] + rep) % 3
@@ -496,6 +506,7 @@ def run_program(ctx, case):
     ctx.note(klass='program', desc=[case['n'], sorted(sig), case['shift'] > 0, min(len(resolved), 6)],
              nontrivial=bool(sig & {'ctrl-param', 'reuse', 'custom-unitary', 'custom-forward', 'placeholder', 'multi-ctrl', 'extend'}) or case['shift'] > 0,
              labels=sorted(sig) + (['shift'] if case['shift'] else []))
+    ph_ids = {id(g) for g, _ in circ.gate_index_list if isinstance(getattr(g, 'args', None), nq.sim._internal._ParameterHolder)}  # placeholder gates, before any setP
     if Pvals:
         kw = {k: v for k, v in Pvals.items() if k != ''}
         if '' in Pvals:
@@ -523,10 +534,10 @@ def run_program(ctx, case):
     delta = 0.37
     seen = set()
     for g, _ in circ.gate_index_list:
-        if isinstance(g, nq.sim.ParameterGate) and id(g) not in seen and getattr(g, 'kind', '') != 'custom' and not isinstance(g.args, nq.sim._internal._ParameterHolder):
+        if isinstance(g, nq.sim.ParameterGate) and id(g) not in seen and id(g) not in ph_ids and getattr(g, 'kind', '') != 'custom' and not isinstance(g.args, nq.sim._internal._ParameterHolder):
             seen.add(id(g))
             g.set_args(tuple(float(x) + delta for x in g.args))
-    if seen:
+    if seen or Pvals:
         def bump(ops):
             for o in ops:
                 if o['op'] == 'sub':
@@ -537,8 +548,16 @@ def run_program(ctx, case):
         bump(case2['ops'])
         circ2, resolved2, n2, sig2, Pvals2 = build(case2)
         U2 = ref_unitary(resolved2, n)
-        ctx.close(circ.to_unitary(), U2, 1e-10, 'after set_args(new) every parametrised gate acts with the new parameters')
-        ctx.close(circ.apply_state(psi.copy()), U2 @ psi, 1e-10, 'after set_args(new): apply_state')
+        if Pvals2:
+            # placeholders: a SECOND setP with new values must refresh every placeholder gate (the first call was made above)
+            kw2 = {k: v for k, v in Pvals2.items() if k != ''}
+            if '' in Pvals2:
+                circ.setP(Pvals2[''], **kw2)
+            else:
+                circ.setP(**kw2)
+            ctx.label('setP twice')
+        ctx.close(circ.to_unitary(), U2, 1e-10, 'after set_args(new) / a second setP(new) every parametrised gate acts with the new parameters')
+        ctx.close(circ.apply_state(psi.copy()), U2 @ psi, 1e-10, 'after set_args(new) / a second setP(new): apply_state')
         U = U2
         ctx.label('set_args')
     d = case['shift']
